@@ -78,11 +78,11 @@ def main(tier):
     graphs = json.load(open(gf))
     rnd = random.Random(V.seed())
     lines = ['%d %d %s' % (gn, len(g), ' '.join('%d %d' % (e[0], e[1]) for e in g)) for g in graphs]
-    nrand = 400 if quick else 6000
+    nrand = 1200 if quick else 6000
     for _ in range(nrand):
         n, es = random_graph(rnd, rnd.randint(2, 60))
         lines.append('%d %d %s' % (n, len(es), ' '.join('%d %d' % (e[0], e[1]) for e in es)))
-    for _ in range(300 if quick else 6000):
+    for _ in range(1000 if quick else 6000):
         n, es = bushy_tree(rnd)
         if 2 <= n <= 60:
             ws = rnd.choice([[4, 8, 20], [4, 40], [4, 4, 4, 60], [8, 12]])
@@ -131,7 +131,7 @@ def main(tier):
     # seeded random routed graphs: up to 40 nodes on a 12x12 doubled grid, straight/L/Z routes that stay clear of third nodes
     def on_seg(o, a, b):
         return (a[0] == b[0] == o[0] and min(a[1], b[1]) <= o[1] <= max(a[1], b[1])) or (a[1] == b[1] == o[1] and min(a[0], b[0]) <= o[0] <= max(a[0], b[0]))
-    for _ in range(300 if quick else 5000):
+    for _ in range(800 if quick else 5000):
         side = rnd.randint(3, 12)
         cells = [(2 * x, 2 * y) for x in range(side) for y in range(side)]
         nodes = rnd.sample(cells, min(len(cells), rnd.randint(2, 40)))
